@@ -144,8 +144,29 @@ def ground_axioms(terms):
     return facts
 
 
+def xor_facts(terms):
+    """ground facts about the uninterpreted XOR: injective in each argument, commutative, x^x = 0 (pairwise instances
+    over the applications that occur in the query)"""
+    apps = _collect_apps(terms, {'bxor'})
+    facts = []
+    for i, a in enumerate(apps):
+        x, y = a.arg(0), a.arg(1)
+        facts.append(a >= 0)
+        facts.append(z3.Implies(x == y, a == 0))
+        facts.append(z3.Implies(a == 0, x == y))
+        for b in apps[i + 1:]:
+            u, v = b.arg(0), b.arg(1)
+            facts.append(z3.Implies(z3.And(x == u, a == b), y == v))
+            facts.append(z3.Implies(z3.And(y == v, a == b), x == u))
+            facts.append(z3.Implies(z3.And(x == v, y == u), a == b))
+            facts.append(z3.Implies(z3.And(x == u, y == v), a == b))
+    return facts
+
+
 def axioms_for(text, terms=()):
     ax = ground_axioms(terms)
+    if 'bxor' in text:
+        ax += xor_facts(terms)
     probe = text + ''.join(a.sexpr() for a in ax)
     if 'pow2' in probe:
         ax += ops.pow2_axioms()
